@@ -453,8 +453,8 @@ Proof. intros [W|W]; [apply ref_round_trip | apply base_round_trip]; exact W. Qe
    predicate the correspondence run evaluates on the implementation. *)
 Theorem model_on_texts_satisfies_spec b d1 d2 f1 f2 o0 :
   wf_base_text b -> dest_text_ok d1 -> dest_text_ok d2 ->
-  exists o, c07_model (mkCase (to_text b) (to_text d1) f1 (to_text d2) f2 o0) = Some o /\
-            c07_holds (mkCase (to_text b) (to_text d1) f1 (to_text d2) f2 o) = true.
+  exists o, c07_model (mkCase (to_text b) false (to_text d1) f1 (to_text d2) f2 o0) = Some o /\
+            c07_holds (mkCase (to_text b) false (to_text d1) f1 (to_text d2) f2 o) = true.
 Proof.
   intros Wb W1 W2. exists (record_obs b d1 d2). split.
   - apply c07_model_on_texts; [apply base_round_trip; exact Wb | apply dest_round_trip; assumption ..].
